@@ -21,9 +21,13 @@ mod dot;
 #[cfg(not(target_arch = "wasm32"))]
 mod ffi_helpers;
 mod regex;
+#[cfg(kani)]
+pub mod verif_shim;
 mod router_config;
 #[cfg(feature = "wasmbind")]
 #[cfg(target_arch = "wasm32")]
 mod wasm_api;
 
 pub use router_config::RouterConfig;
+#[cfg(kani)]
+pub use crate::regex::LazyRegex;
